@@ -101,7 +101,8 @@ def known_key(run, node, k):
         return "file-scan-partition-statistics-under-work-stealing"
     if o["name"].startswith("SortExec") and "preserve_partitioning=[true]" in d and o["fetch"] and o["np"] > 1 and whole and f == "rows":
         return "sort-fetch-statistics-ignore-preserved-partitioning"
-    if (o["name"].startswith("SortExec") and "TopK" in d and "preserve_partitioning=[true]" in d and o["np"] > 1 and part
+    if ((o["name"].startswith("SortExec") and "TopK" in d and "preserve_partitioning=[true]" in d and o["np"] > 1 and p >= 0 and o["id"] == node["id"] or
+            o["name"].startswith("SortExec") and "TopK" in d and "preserve_partitioning=[true]" in d and o["np"] > 1 and part)
             and "datafusion.optimizer.enable_topk_dynamic_filter_pushdown" not in str(contract.CONFIGS[run["cfg"]])):
         return "topk-partition-statistics-under-shared-dynamic-filter"
     if o["name"] == "UnionExec" and f in ("min", "max"):
